@@ -161,6 +161,7 @@ def operand_leaves(operand, op):
 
 
 def struct_of_method(encoding, fn, pattern):
+    """The *Command struct a method works with, read off its source: the one struct its text names."""
     src = inspect.getsource(fn)
     names = set(re.findall(pattern, src))
     if len(names) != 1:
@@ -172,12 +173,84 @@ def struct_of_method(encoding, fn, pattern):
     return st
 
 
+def traced_structs(encoding, cls, thunk):
+    """Behavioural fallback when the source of serialize()/deserialize_from() does not name exactly one
+    struct (helper methods, structs imported by name, ...): run `thunk` with every ctypes struct of the
+    encoding module replaced -- in the encoding module and in the modules of cls's bases -- by a
+    recording subclass of identical layout, and return the command-sized structs with an `id` field
+    that were instantiated or read from a buffer."""
+    import sys as _sys
+
+    used = []
+    structs = [v for v in vars(encoding).values()
+               if isinstance(v, type) and issubclass(v, ctypes.Structure) and v is not ctypes.Structure]
+    recs = {}
+    for S in structs:
+        def mk(S=S):
+            class Rec(S):
+                def __init__(self, *a, **k):
+                    used.append(S)
+                    super().__init__(*a, **k)
+
+                @classmethod
+                def from_buffer_copy(c, *a, **k):
+                    used.append(S)
+                    return S.from_buffer_copy(*a, **k)
+
+                @classmethod
+                def from_buffer(c, *a, **k):
+                    used.append(S)
+                    return S.from_buffer(*a, **k)
+            Rec.__name__, Rec.__qualname__ = S.__name__, S.__qualname__
+            return Rec
+        try:
+            recs[S] = mk()
+        except Exception:
+            continue
+    mods = {encoding}
+    for base in cls.__mro__:
+        m = _sys.modules.get(getattr(base, "__module__", None))
+        if m is not None and getattr(m, "__name__", "").startswith("netqasm."):
+            mods.add(m)
+    patches = []
+    for m in mods:
+        for n, v in list(vars(m).items()):
+            if isinstance(v, type) and v in recs:
+                patches.append((m, n, v))
+                setattr(m, n, recs[v])
+    try:
+        thunk()
+    finally:
+        for m, n, v in patches:
+            setattr(m, n, v)
+    out = []
+    for S in used:
+        try:
+            ok = ctypes.sizeof(S) == encoding.COMMAND_BYTES and hasattr(S, "id")
+        except Exception:
+            ok = False
+        if ok and S not in out:
+            out.append(S)
+    return out
+
+
+def struct_of(encoding, cls, fn, thunk):
+    try:
+        return struct_of_method(encoding, fn, r"encoding\.(\w+Command)\b")
+    except GenError as e:
+        try:
+            got = traced_structs(encoding, cls, thunk)
+        except Exception as e2:
+            raise GenError(f"{e}; tracing failed: {type(e2).__name__}: {e2}")
+        if len(got) != 1:
+            raise GenError(f"{e}; traced structs: {[g.__name__ for g in got]}")
+        return got[0]
+
+
 def row_of_class(encoding, operand, cls):
     """(name, id, mnemonic, kinds, enc_layout, dec_layout, enc_struct, dec_struct)"""
     names, kinds = operand_fields(cls)
     # the struct a method works with = the one *Command struct its source names (however it is called)
-    enc_struct = struct_of_method(encoding, cls.serialize, r"encoding\.(\w+Command)\b")
-    dec_struct = struct_of_method(encoding, cls.deserialize_from, r"encoding\.(\w+Command)\b")
     nleaf = sum(NLEAVES[k] for k in kinds)
 
     def build(leafvals):
@@ -190,6 +263,11 @@ def row_of_class(encoding, operand, cls):
             raise GenError(f"{cls.__name__}.operands does not return the constructor operands in order")
         return inst
 
+    # the struct a method works with = the one *Command struct its source names (however it is called);
+    # if the source does not say, the one it is observed to instantiate / read
+    enc_struct = struct_of(encoding, cls, cls.serialize, lambda: bytes(build([0] * nleaf).serialize()))
+    zero0 = bytes(build([0] * nleaf).serialize())
+    dec_struct = struct_of(encoding, cls, cls.deserialize_from, lambda: cls.deserialize_from(zero0))
     # --- encode pairing: operand leaf j -> struct leaf (one-hot probing of serialize) ---
     enc_leaves = leaf_fields(enc_struct)
     id_leaf = [lf for lf in enc_leaves if lf[0] == "id"]
